@@ -230,6 +230,19 @@ G_RECORDS = {
         'write_target': ['M', 'w:target'], 'write_ramp': ['M', 'w:ramp'],
         'read_value': ['M', 'r:value'], 'read_status': ['M', 'r:status'],
     }},
+    # parameters whose datatype limits are lengths (string, array, blob): configured values between class and configured limits
+    'GS': {'bases': ['Module'], 'body': {
+        's': ['P', {'description': 'string', 'datatype': ['string', {'maxchars': 8}], 'readonly': False, 'default': ''}],
+        'write_s': ['M', 'w:s'],
+        'u': ['P', {'description': 'ascii string without write method', 'datatype': ['string', {'maxchars': 6}], 'readonly': False,
+                    'default': ''}],
+        'arr': ['P', {'description': 'array', 'datatype': ['array', ['double', {'min': 0, 'max': 100}], 0, 4], 'readonly': False,
+                      'default': []}],
+        'write_arr': ['M', 'w:arr'],
+        'bl': ['P', {'description': 'blob', 'datatype': ['blob', 0, 4], 'readonly': False, 'default': b''}],
+        'write_bl': ['M', 'w:bl'],
+        'doPoll': ['M', 'poll'],
+    }},
     # not polled (enablePoll = False): nothing to poll, but configured values to be written to the hardware
     'GQ': {'bases': ['Module'], 'body': {
         'enablePoll': ['V', False],
